@@ -269,7 +269,7 @@ func (exp *exporter) BeginMarkupBlock(tag string, id string) {
 	if !ok {
 		fmt.Fprint(w, "<em")
 	} else {
-		fmt.Fprintf(w, "<%s class=\"%s\"", mtag.Cmd, tag)
+		fmt.Fprintf(w, "<%s class=\"%s\"", mtag.Cmd, html.EscapeString(tag))
 	}
 	pairs := mtag.Pairs
 	for i := 0; i < len(pairs)-1; i += 2 {
